@@ -207,6 +207,15 @@ impl<T: Transport + 'static> SyncEngine<T> {
         false
     }
 
+    /// sy's own bookkeeping files at the destination root (checksum database,
+    /// directory cache, resume state) are never deletion candidates
+    fn is_own_metadata_file(relative_path: &Path) -> bool {
+        matches!(
+            relative_path.to_str(),
+            Some(".sy-checksums.db") | Some(".sy-dir-cache.json") | Some(".sy-state.json")
+        )
+    }
+
     fn should_exclude(&self, relative_path: &Path, is_dir: bool) -> bool {
         self.filter_engine.should_exclude(relative_path, is_dir)
     }
@@ -367,6 +376,15 @@ impl<T: Transport + 'static> SyncEngine<T> {
             );
         }
 
+        // Remember every scanned source path: a deletion must never target a path
+        // whose counterpart still exists in the source, even when that entry is
+        // filtered out of this run by an exclude pattern or a size bound
+        let scanned_paths: std::collections::HashSet<PathBuf> = if self.delete {
+            all_files.iter().map(|f| f.relative_path.clone()).collect()
+        } else {
+            std::collections::HashSet::new()
+        };
+
         // Filter files by size and exclude patterns
         // Also track excluded directories to filter their children (rsync behavior)
         let mut excluded_dirs: Vec<PathBuf> = Vec::new();
@@ -523,7 +541,14 @@ impl<T: Transport + 'static> SyncEngine<T> {
 
         // Plan deletions if requested
         if self.delete {
-            let deletions = planner.plan_deletions(&source_files, destination);
+            let mut deletions = planner.plan_deletions(&source_files, destination);
+            deletions.retain(|task| {
+                let rel = task
+                    .dest_path
+                    .strip_prefix(destination)
+                    .unwrap_or(&task.dest_path);
+                !scanned_paths.contains(rel) && !Self::is_own_metadata_file(rel)
+            });
 
             // Apply deletion safety checks
             if !deletions.is_empty() && !self.force_delete {
